@@ -73,6 +73,15 @@ def random_cases(r, n):
             s = ".".join("".join(chr(c) if 33 <= c < 127 and c != 46 else "x" for c in lb) for lb in good)
             if r.random() < 0.3:
                 s += "."
+            # relative text with an empty label inside, in front or alone ("a..b", ".a", "..", "."): never a name
+            y = r.random()
+            if y < 0.12 and "." in s:
+                i = s.index(".")
+                s = s[:i] + "." + s[i:]
+            elif y < 0.18:
+                s = "." + s
+            elif y < 0.22:
+                s = r.choice(["..", ".", "a..", "a..b", "www..internal", "a.b..c.d"])
             out.append({"op": "from_relative", "origin": origin, "s": list(s.encode("utf-8"))})
         else:
             ok = [[c for c in lb][:63] for lb in labels if lb][:4]
